@@ -761,7 +761,10 @@ def canon_display_tokens(toks):
             i[0] += n
             out.append(''.join(c for c in chars if c not in _LAYOUT))
         elif tag == 205:
+            rows, cols = toks[i[0]][1], toks[i[0] + 1][1]
             i[0] += 2      # rows, cols: layout only; the cells follow in reading order and are ordinary tokens
+            if rows * cols == 0:
+                out.append('[]')      # nalgebra's printer writes an empty bracket pair for a matrix without cells
         else:
             raise AssertionError('unexpected display tag %r' % (t,))
     while i[0] < len(toks):
